@@ -247,6 +247,15 @@ func (c20) Execute(sc *engine.Scenario) *engine.Result {
 		return res
 	}
 	res.ProbeN("samples_stamped", len(base))
+	{
+		dg := engine.NewDigest()
+		for _, s := range base {
+			dg.U64(s.cycle)
+			dg.U32(math.Float32bits(s.l))
+			dg.U32(math.Float32bits(s.r))
+		}
+		res.Digest = uint64(dg)
+	}
 	// power history from the schedule
 	type span struct{ from, to uint64 }
 	var offs []span
